@@ -15,8 +15,13 @@ for d in sorted(glob.glob(os.path.join(ROOT, 'seeded', '*'))):
     tail = ' '.join(m.get('check_output_tail', []))
     mm = re.search(r'FAILED-OBLIGATION (\S+?::\S+?)::', tail)
     if 'CAUGHT' in verdict:
-        how = 'failed obligation' if 'FAILED-OBLIGATION' in tail else ('replayed input after UNDECIDED' if 'UNDECIDED' in tail else 'violation')
-        if 'failing input on the real code' in tail:
+        if 'FAILED-OBLIGATION' in tail:
+            how = 'contract: failed obligation' + (' ' + mm.group(1) if mm else '')
+        elif 'UNDECIDED' in tail:
+            how = 'contract weave UNDECIDED on the edited code, then violation by replayed input'
+        else:
+            how = 'BOUNDED stand-in (oracle) - the clause is outside the contracts'
+        if 'failing input on the real code' in tail and 'FAILED-OBLIGATION' in tail:
             how += ' + failing input'
     note = m.get('verdict_note', '')
     rows.append('| %s | %s | %s | %s%s |' % (name, summ, verdict.split(' ')[0], how, (' — ' + note) if note else ''))
